@@ -111,25 +111,7 @@ def p_nested_branch_skips_last_producing(case, rec, exp):
     return False
 
 
-def p_branch_in_breaking_finally(case, rec, exp):
-    """a finally list with a direct break/continue preceded by a statement that contains a nested break/continue;
-    the observation equals the transcription I."""
-    if case.get("kind") != "prog" or not _agrees_I(exp):
-        return False
-    br = lambda s: s["k"] in ("break", "cont")
-    for s in _all_stmts(case.get("prog")):
-        if s["k"] == "try" and s.get("hf"):
-            c = s.get("c") or []
-            for i, x in enumerate(c):
-                if br(x):
-                    if _any([k for y in c[:i] for k in _kids(y)], br):
-                        return True
-                    break
-    return False
-
-
 PREDICATES = {
-    "C08.branch_inside_breaking_finally_is_redirected": p_branch_in_breaking_finally,
     "C08.nested_return_in_finally_clobbers_pending_return": p_nested_return_clobbers,
     "C08.finally_nested_branch_keeps_stale_completion_value": p_finally_nested_branch_value,
     "C08.caught_throw_keeps_stale_completion_value": p_caught_throw_stale_value,
@@ -232,7 +214,7 @@ CFG = {
              "and a finally block, a for-of or a built-in consumer is involved; distinct = by hash of the case"),
     "theorem_names": ["finally_exactly_once", "finally_exactly_once_innermost_first", "finally_overrides",
                       "iterator_closed_once", "completion_value_rules", "uncatchable_runs_nothing_S", "trace_in_syntax",
-                      "compile_control_correct_partial", "finally_throw_not_caught_by_own_catch", "pending_return_value_refuted", "finally_nested_break_value_refuted", "caught_throw_stale_value_refuted", "nested_branch_loses_value_refuted", "branch_in_breaking_finally_refuted", "uncatchable_runs_nothing", "uncatchable_step_runs_nothing", "leaveTry_leaveFinally_roundtrip"],
+                      "compile_control_correct_partial", "finally_throw_not_caught_by_own_catch", "pending_return_value_refuted", "finally_nested_break_value_refuted", "caught_throw_stale_value_refuted", "nested_branch_loses_value_refuted", "uncatchable_runs_nothing", "uncatchable_step_runs_nothing", "leaveTry_leaveFinally_roundtrip"],
     "allowed_axioms": [],
     "trusted_base": [
         "Coq 8.16.1 kernel + vm_compute (no native_compute); theorems closed under the global context (no axioms)",
@@ -253,12 +235,11 @@ CFG = {
                  "re-establishes the pending completion, that a for-of calls return() exactly once iff the loop is left abruptly by "
                  "its body and never after exhaustion or a throwing next(), the UpdateEmpty completion-value rules, and that "
                  "uncatchable payloads run nothing. goja's compiler/VM skeleton is transcribed as model I (compile + vm_step). "
-                 "compile_control_correct_partial: in function-body mode, for every program without for-of and without a direct "
-                 "break/continue in a finally list (any nesting of try/catch/finally, three loop kinds, labels, if, blocks, "
+                 "compile_control_correct_partial: in function-body mode, for every program without for-of (any nesting of try/catch/finally, three loop kinds, labels, if, blocks, "
                  "break/continue/return/throw/uncatchable anywhere), running compile(prog) on the VM model yields S's event trace and "
                  "completion (return value included when no return sits inside a finally block) and leaves try/iterator/operand "
                  "stacks at entry values. uncatchable_runs_nothing holds on I for every VM state (F12 repaired). Open findings "
-                 "C08-N2, N4, N5, N6, N7 are exhibited by refuted-lemmas on I. Both models are tied to /repo on every run: 3000 (quick) / "
+                 "C08-N2, N4, N5, N6 are exhibited by refuted-lemmas on I. Both models are tied to /repo on every run: 3000 (quick) / "
                  "200000 (thorough) generated programs are run in goja and their event log + final completion compared with S (oracle) and I by vm_compute."),
         "note": ("trusted: Coq kernel + vm_compute; the hand transcription (coq/C08/Model.v); the Go harness (JS printer, event log). "
                  "Open findings on the current tree are recognised by narrow predicates AND by agreement with the faithful model I."),
